@@ -6,6 +6,7 @@ import YashModel.Syntax.Lemmas
 import YashModel.Syntax.WordLemmas
 import YashModel.Syntax.CommandLemmas
 import YashModel.Syntax.FragmentLemmas
+import YashModel.Syntax.ParserLemmas
 namespace YashModel.Syntax
 
 /-- ★ Every escape unit the parser can produce is printed as text that the escape lexer reads back as the
@@ -133,5 +134,61 @@ example : Word.FlatArg [.unquoted (.literal 'e'), .unquoted (.backslashed '~'), 
   · show '~' ≠ '\n'; decide
   · show '\'' ∉ ['a', ' ']; decide
 example : Delim.token.Ends ';' ∧ isBlank ';' = false := ⟨⟨by decide, by decide⟩, by decide⟩
+
+
+/-- ★ A token word of the fragment, printed and followed by a blank or a terminator, is read by the
+    parser's token step (`skip_blanks_and_comment`, `operator`, `word`, `parse_tilde_front`, `token_id`)
+    as exactly that word, classified as a reserved word or a plain word (never an IO number). -/
+theorem token_roundtrip (w : Word) (next : List Char) (hw : TokWordOk w next) (hn : NextOk next)
+    (sp : Bool) :
+    lexToken ((if sp then [' '] else []) ++ (printWord w ++ next)) =
+      some (⟨w, .word (isKeywordWord w)⟩, next) :=
+  lexToken_word w next hw hn sp
+
+/-- ★ A redirection `[n]op word` (any of the nine operators, with or without a file descriptor number,
+    which is recognised as an IO_NUMBER because the operator follows it immediately) prints as text that
+    `Parser::redirection` reads back as the same redirection. -/
+theorem redirection_roundtrip (fd : Option Nat) (hfd : FdOk fd) (op : RedirOp) (w : Word)
+    (next : List Char) (hw : TokWordOk w next) (hn : NextOk next) (sp : Bool) :
+    parseRedir ((if sp then [' '] else []) ++ (printRedir (.normal fd op w) ++ next)) =
+      some (some (.normal fd op w), next) :=
+  parseRedir_normal fd hfd op w next hw hn sp
+
+/-- ★ `simple_command_roundtrip`: a simple command with scalar assignments, words and redirections
+    (`mkSimple as ws rs`) prints — assignments, words, redirections; or redirections first when there is no
+    assignment and the first word is a reserved word — as text that the model of
+    `Parser::simple_command` reads back as the same command, stopping in front of the terminator `e`
+    (`;`, `&`, `|`, `)` or newline).  `PiecesOk` lists what the parser needs piece by piece: every token word
+    is in the word fragment, non-empty, not starting with `~` or `#`; an assignment name is non-empty and
+    has no `=`; assignment values have no unquoted `~`; the first word is not itself of the form
+    `name=…`; a reserved word comes first only after an assignment or a redirection; file descriptors
+    fit in an `i32`.  Not covered: array assignments, here-documents, tilde expansions in values. -/
+theorem simple_command_roundtrip (as : List (List Char × Word)) (ws : List Word)
+    (rs : List (Option Nat × RedirOp × Word)) (e : Char) (rest : List Char) (he : TermOk e)
+    (hne : (mkSimple as ws rs).assigns ≠ [] ∨ ws ≠ [] ∨ (mkSimple as ws rs).redirs ≠ [])
+    (hok : PiecesOk ⟨[], [], []⟩ (simplePieces as ws rs) (e :: rest)) :
+    parseSimple ((simplePieces as ws rs).length + 1) (printSimple (mkSimple as ws rs) ++ e :: rest) =
+      some (some (mkSimple as ws rs), e :: rest) :=
+  simple_command_roundtrip_aux as ws rs e rest he hne hok
+
+/-- `>f if` followed by `;`: the reserved word is printed after the redirection and reads back -/
+example (rest : List Char) :
+    PiecesOk ⟨[], [], []⟩ (simplePieces [] [digitsWord ['i', 'f']] [(none, .fileOut, digitsWord ['f'])])
+      (';' :: rest) := by
+  have hp : simplePieces [] [digitsWord ['i', 'f']] [(none, .fileOut, digitsWord ['f'])] =
+      [.redir none .fileOut (digitsWord ['f']), .word (digitsWord ['i', 'f'])] := by
+    have hk : firstWordIsKeyword (mkSimple [] [digitsWord ['i', 'f']] [(none, .fileOut, digitsWord ['f'])]) = true := by decide
+    simp [simplePieces, mkSimple, assignPieces, wordPieces, redirPieces]
+    exact hk
+  rw [hp]
+  refine ⟨⟨trivial, litWord_tok 'f' _ (by decide) [] (by simp)⟩, ⟨litWord_tok 'i' _ (by decide) ['f'] ?_, ?_, ?_⟩, trivial⟩
+  · intro x hx; simp at hx; subst hx; decide
+  · intro _
+    exact ⟨by decide, fun _ => by decide⟩
+  · intro h; exact absurd rfl h
+
+
+example : TermOk ';' := Or.inl rfl
+example : FdOk (some 2) := by show 2 ≤ 2147483647; decide
 
 end YashModel.Syntax
